@@ -133,7 +133,7 @@ fn one_head() -> HeadSet {
 /// On success: generation + 1, root.heads = offset of the appended head set, free_offset advanced,
 /// `next_root` flipped. If any OS operation fails, `next_root` is NOT flipped and no later
 /// operation is issued (in particular no root write after a failed data sync).
-fn commit_write_ordering<const FAIL: usize>() {
+fn commit_write_ordering<const FAIL: usize, const GROW: bool>() {
     let free0: i64 = kani::any();
     kani::assume(free0 >= FREE_START && free0 < FREE_START + 1_000_000);
     let gen0: u64 = kani::any();
@@ -143,7 +143,8 @@ fn commit_write_ordering<const FAIL: usize>() {
     let mut w = Writer {
         file: mk_file(),
         root: Root { generation: gen0, heads: Some(77), fact_cache: Some(78), free_offset: free0, checksum: 0 },
-        alloc_end: FREE_START + PREALLOC_CHUNK,
+        // GROW: the head-set append crosses the preallocated region, so capacity must be grown first
+        alloc_end: if GROW { free0 + 2 } else { FREE_START + PREALLOC_CHUNK },
         next_root: slot0,
         data_dirty: dirty0,
     };
@@ -151,20 +152,25 @@ fn commit_write_ordering<const FAIL: usize>() {
     let fc: u64 = 4242;
     let heads = one_head();
     let r = w.commit(&heads, FactCacheOffset::new(fc));
-    let n = d().n;
+    // with GROW the first OS operation is the fallocate(+fsync) of the new region
+    let g = GROW as usize;
+    if GROW && d().n > 0 {
+        assert!(d().kind[0] == FA && d().len[0] >= free0 + 4);
+    }
+    let n = d().n - if d().n > 0 { g } else { 0 };
     assert!(n <= 6);
-    let failed = FAIL < 6;
+    let failed = FAIL < 6 + g;
     assert!(r.is_ok() == !failed);
     if failed {
         // no operation after the failing one; the root slot pointer is not flipped
-        assert!(n == FAIL + 1);
+        assert!(n + g == FAIL + 1);
         assert!(w.next_root == slot0);
     }
     // shape: W W S W W S — data (prefix, payload), barrier, root (prefix, payload), barrier
     let mut i = 0;
     while i < 6 {
         if i < n {
-            let (k, off, len) = (d().kind[i], d().off[i], d().len[i]);
+            let (k, off, len) = (d().kind[i + g], d().off[i + g], d().len[i + g]);
             match i {
                 0 => assert!(k == W && off == free0 && len == 4),
                 1 => assert!(k == W && off == free0 + 4 && len > 0),
@@ -178,7 +184,7 @@ fn commit_write_ordering<const FAIL: usize>() {
     }
     if r.is_ok() {
         assert!(n == 6);
-        let new_free = free0 + 4 + d().len[1];
+        let new_free = free0 + 4 + d().len[1 + g];
         assert!(w.root.free_offset == new_free && w.root.generation == gen0 + 1);
         assert!(w.root.heads == Some(free0 as u64) && w.root.fact_cache == Some(fc));
         assert!(w.next_root == other_root(slot0) && !w.data_dirty);
@@ -190,21 +196,22 @@ fn commit_write_ordering<const FAIL: usize>() {
     core::mem::forget(heads);
 }
 macro_rules! cwo {
-    ($name:ident, $f:expr) => {
+    ($name:ident, $f:expr, $g:expr) => {
         #[kani::proof]
         #[kani::unwind(40)]
         #[kani::stub(File::write_all, stub_write_all)]
         #[kani::stub(File::sync, stub_sync)]
         #[kani::stub(File::fallocate, stub_fallocate)]
         fn $name() {
-            commit_write_ordering::<$f>();
+            commit_write_ordering::<$f, $g>();
         }
     };
 }
-cwo!(c15_commit_write_ordering_ok, 99);
-cwo!(c15_commit_write_ordering_fail_data_sync, 2);
-cwo!(c15_commit_write_ordering_fail_root_write, 4);
-cwo!(c15_commit_write_ordering_fail_root_sync, 5);
+cwo!(c15_commit_write_ordering_ok, 99, false);
+cwo!(c15_commit_write_ordering_grow_ok, 99, true);
+cwo!(c15_commit_write_ordering_fail_data_sync, 2, false);
+cwo!(c15_commit_write_ordering_fail_root_write, 4, false);
+cwo!(c15_commit_write_ordering_fail_root_sync, 5, false);
 
 /// ⟦Writer::append_at⟧: the write frontier strictly increases by 4 + len, capacity is ensured for the
 /// new end before the write (fallocate precedes the data writes), `data_dirty` is set; on failure the
